@@ -305,6 +305,21 @@ def u_to_pvv(E):
         E.prove('to_pvv/passes-key', z3.BoolVal(a[1] is key), 'P')
         E.prove('to_pvv/passes-index', z3.BoolVal(isinstance(a[2], VInt)) if not isinstance(a[2], VInt) else a[2].t == 3, 'P')
         E.prove('to_pvv/passes-own-card-number', z3.BoolVal(a[3] is pan), 'P')
+    # every legal key index 0..9 is passed on as given (keyword and positional), 0 included; without one, index 1 is used
+    idx = E.fresh_int('key_index')
+    E.assume(z3.And(idx >= 0, idx <= 9))
+    for how in ('keyword', 'positional'):
+        seen.clear()
+        if how == 'keyword':
+            E.method(pb, 'to_pvv', key, key_index=VInt(idx))
+        else:
+            E.method(pb, 'to_pvv', key, VInt(idx))
+        a = seen.get('args') or [None] * 4
+        E.prove('to_pvv/any-key-index-0..9-passed-as-given[%s]' % how, z3.BoolVal(isinstance(a[2], VInt)) if not isinstance(a[2], VInt) else a[2].t == idx, 'P')
+    seen.clear()
+    E.method(pb, 'to_pvv', key)
+    a = seen.get('args') or [None] * 4
+    E.prove('to_pvv/default-key-index-is-1', z3.BoolVal(isinstance(a[2], VInt)) if not isinstance(a[2], VInt) else a[2].t == 1, 'P')
     # format 4 block has no card number of its own: the parameter is used, and required
     pb4 = E.instantiate(E.program.classes[P + 'Iso4AESPinBlockWithVisaPVV'], [pin], {'random_value': VBV(z3.BitVecVal(5, 64))})
     E.method(pb4, 'to_pvv', key, card_number=pan)
